@@ -57,6 +57,16 @@ func (s *serviceDiscovery) Remove(name string) {
 	}
 }
 
+// removeService removes the registration whose ping failed. A follower that registered again under the
+// same name in the meantime (restart, reconnect) keeps its new registration.
+func (s *serviceDiscovery) removeService(service *Service) {
+	_ = service.Client.Close()
+
+	if current, ok := s.services.Load(service.Name); ok && current == service {
+		s.services.Delete(service.Name)
+	}
+}
+
 func (s *serviceDiscovery) RemoveAll() {
 	var needToBeRemove []string
 
@@ -131,20 +141,20 @@ func (s *serviceDiscovery) StartHeartbeat() {
 				}
 			}
 
-			var needToBeRemove []string
+			var needToBeRemove []*Service
 
-			s.services.Range(func(name string, service *Service) bool {
+			s.services.Range(func(_ string, service *Service) bool {
 				err := service.Client.Ping()
 				if err != nil {
-					needToBeRemove = append(needToBeRemove, name)
+					needToBeRemove = append(needToBeRemove, service)
 				}
 
 				return true
 			})
 
-			for _, name := range needToBeRemove {
-				s.Remove(name)
-				logger.Log.Debug("client %s disconnected", name)
+			for _, service := range needToBeRemove {
+				s.removeService(service)
+				logger.Log.Debug("client %s disconnected", service.Name)
 			}
 		}
 	}()
